@@ -6,6 +6,7 @@ func main() {
 	Main(map[string]CmdFn{
 		"gen":   func(a []string) int { return RunGen(gens, a) },
 		"probe": probe,
+		"c01":   c01,
 		"c07":   c07,
 		"c08":   c08,
 	})
